@@ -271,7 +271,7 @@ func queryParameters(w *W, o *message.QueryOptions, v ver) error {
 	if o.SkipMetadata {
 		flags |= 0x02
 	}
-	if o.PageSize > 0 {
+	if o.PageSize != 0 || o.PageSizeInBytes { // the struct carries a page size (or the qualifier of one)
 		flags |= 0x04
 		if o.PageSizeInBytes {
 			flags |= 0x40000000
@@ -615,7 +615,7 @@ func rowsMetadata(w *W, m *message.RowsMetadata, v ver) error {
 		}
 		flags |= 0x08
 	}
-	if m.ContinuousPageNumber > 0 {
+	if m.ContinuousPageNumber != 0 || m.LastContinuousPage { // the struct denotes a page of a continuous-paging session
 		if !isDse(v) {
 			return fmt.Errorf("ref: continuous paging is not defined for version %d", v)
 		}
